@@ -116,7 +116,12 @@ def execute(FallbackClient, n, hits, op, variant, reuse=(None, None)):
     fc, caches = reuse
     if fc is None:
         caches = [make_cache(i + 1, hits[i], log, variant + i, expect) for i in range(n)]
-        fc = FallbackClient(caches)
+        if variant % 3 == 0 and n > 1:
+            # the caller re-orders the caches after construction: the configured order is fc.caches as it stands
+            fc = FallbackClient(list(reversed(caches)))
+            fc.caches = caches if variant % 2 else list(caches)
+        else:
+            fc = FallbackClient(caches)
     else:
         for c in caches:
             c.rebind(log, expect)
